@@ -333,6 +333,20 @@ def run(ctx):
                     # must compare the whole distance (no slicing / other calls)
                     asc = ('arg2' in a0 or (cb.local_name(2) or '~') in a0) and ('arg3' in a1 or (cb.local_name(3) or '~') in a1) \
                         and len(cb.calls()) == 1
+    # key-based spellings: sort_by_key(|e| e.distance) with a [u8; 32] key, or sort() on (distance, entry) tuples
+    for c in fc.calls(r'sort_by_key$|sort_unstable_by_key$|sort_by_cached_key$'):
+        for x in fc.expr(c.args[1]).walk():
+            if x.k == 'agg' and x.d == 'closure' and x.a in prog.bodies:
+                kb = prog.bodies[x.a]
+                kt = kb.local_ty(0)
+                if re.match(r'^&?\[u8; 32\]$', kt) and not any(ITER_CUT.search(cc.declared) for cc in kb.calls()):
+                    asc = True
+                elif 'Reverse' in kt:
+                    asc = False
+    for c in fc.calls(r'<impl \[T\]>::sort$|<impl \[T\]>::sort_unstable$'):
+        vt = L.operand_ty(fc, c.args[0]) or ''
+        if re.search(r'\[\(\[u8; 32\], ', vt) or re.search(r'Vec<\(\[u8; 32\], ', vt):
+            asc = True
     dist = prog.body('dht::core_engine::DhtKey::distance')
     for r in dist.aggregates():
         if str(r.get('adt', '')).endswith('Range') and len(r['ops']) == 2:
@@ -345,7 +359,7 @@ def run(ctx):
             if src and not dist.calls(r'Iterator::(take|skip|step_by)$'):
                 full = True
     xor = any(s['r']['k'] == 'bin' and s['r']['op'] == 'BitXor' for _, _, s in dist.stmts())
-    srt = [c for c in fc.calls(r'sort_by$|sort_unstable_by$')]
+    srt = [c for c in fc.calls(r'sort_by$|sort_unstable_by$|sort_by_key$|sort_unstable_by_key$|sort_by_cached_key$|<impl \[T\]>::sort$|<impl \[T\]>::sort_unstable$')]
     tk = [c for c in fc.calls(r'Iterator::take$|Iterator>::take$')]
     oktake = bool(tk) and fc.expr(tk[0].args[1]).strip().show() == 'count' and bool(srt) and fc.dominates(srt[0].bb, tk[0].bb)
     dsrc = all(fc.expr(p.args[1]).mentions_call(r'DhtKey::distance$') is not None for p in pushes) if pushes else chain_dist
